@@ -187,6 +187,23 @@ pub fn c08q_bytes_cursor_scalars() {
 	let r0 = <(u16, Option<u16>)>::decode(&mut s);
 	match (&r0, &r1) { (Ok(a), Ok(b)) => assert!(a == b, "decode_from_bytes differs from slice decode"), (Err(_), Err(_)) => {}, _ => assert!(false, "decode_from_bytes: success differs from slice decode") }
 }
+/// values with an EMPTY encoding decode from an empty input of every kind (slice, unknown-length, shared buffer)
+#[kani::proof]
+#[kani::unwind(6)]
+pub fn c08q_bytes_empty_buffer_zero_width_values() {
+	use core::marker::PhantomData;
+	macro_rules! z { ($t:ty) => {{
+		let e: [u8; 0] = [];
+		let a = <$t>::decode(&mut &e[..]).is_ok();
+		let b = <$t>::decode(&mut Unk(&e[..])).is_ok();
+		let c = parity_scale_codec::decode_from_bytes::<$t>(bytes::Bytes::new()).is_ok();
+		assert!(a && b && c, "a zero-width value does not decode from an empty input of some kind");
+	}}; }
+	z!(()); z!(PhantomData<u32>); z!([u8; 0]); z!([(); 3]); z!(Compact<()>); z!(((), ()));
+	// and non-empty types are rejected by all of them alike
+	let e: [u8; 0] = [];
+	assert!(u8::decode(&mut &e[..]).is_err() && parity_scale_codec::decode_from_bytes::<u8>(bytes::Bytes::new()).is_err());
+}
 #[kani::proof]
 #[kani::unwind(8)]
 pub fn c08q_bytes_zero_copy() {
@@ -240,12 +257,12 @@ pub mod ioreader {
 		assert!(<[u8; 0]>::decode(&mut empty).is_ok() && <[u16; 0]>::decode(&mut &bytes[..0]).is_ok());
 		core::mem::forget(r1);
 	}
-	#[kani::proof] #[kani::unwind(8)] pub fn c08t_ioreader_tuple() { h_ioreader::<(Compact<u32>, Option<u16>), 5>() }
-	#[kani::proof] #[kani::unwind(8)] pub fn c08q_ioreader_opt_u16() { h_ioreader::<Option<u16>, 4>() }
-	#[kani::proof] #[kani::unwind(8)] pub fn c08q_ioreader_arr_u16() { h_ioreader::<[u16; 2], 5>() }
-	#[kani::proof] #[kani::unwind(8)] pub fn c08q_ioreader_arr_u8() { h_ioreader::<[u8; 4], 5>() }
-	#[kani::proof] #[kani::unwind(8)] pub fn c08t_ioreader_u32() { h_ioreader::<u32, 4>() }
-	#[kani::proof] #[kani::unwind(8)] pub fn c08t_ioreader_arr() { h_ioreader::<[Option<bool>; 2], 4>() }
+	#[kani::proof] #[kani::unwind(14)] pub fn c08t_ioreader_tuple() { h_ioreader::<(Compact<u32>, Option<u16>), 5>() }
+	#[kani::proof] #[kani::unwind(14)] pub fn c08q_ioreader_opt_u16() { h_ioreader::<Option<u16>, 4>() }
+	#[kani::proof] #[kani::unwind(14)] pub fn c08q_ioreader_arr_u16() { h_ioreader::<[u16; 2], 5>() }
+	#[kani::proof] #[kani::unwind(14)] pub fn c08q_ioreader_arr_u8() { h_ioreader::<[u8; 4], 5>() }
+	#[kani::proof] #[kani::unwind(14)] pub fn c08t_ioreader_u32() { h_ioreader::<u32, 4>() }
+	#[kani::proof] #[kani::unwind(14)] pub fn c08t_ioreader_arr() { h_ioreader::<[Option<bool>; 2], 4>() }
 }
 
 /// negative twin: "unknown-length input reads nothing on failure" must FAIL (it may consume before failing)
